@@ -80,6 +80,7 @@ NODE_TYPES = ['a', 'b', 'c', 'd']
 MUT_TYPES = [m.name for m in MutationTypesEnum]          # the 10 built-in types
 CROSS_TYPES = [c.name for c in CrossoverTypesEnum]       # the 7 built-in types
 WORKERS = 4
+BATCH = 3000
 
 
 # ----------------------------------------------------------------------------------------
@@ -1067,14 +1068,6 @@ def explain(x):
     return 'parent operator data or output structure violates the property', 'C02.parent-operator'
 
 
-def run_specs(ctx, specs):
-    if ctx.tier == 'thorough' and len(specs) > 2000:
-        import concurrent.futures
-        with concurrent.futures.ProcessPoolExecutor(max_workers=WORKERS) as ex:
-            return list(ex.map(run_case_safe, specs, chunksize=200))
-    return [run_case_safe(s) for s in specs]
-
-
 def run(ctx):
     ctx.rule = ('one case = one call of the real Mutation / Crossover operator on a population; streams: exhaustive '
                 '(every default-valid DAG <= 3 nodes [thorough: <= 4] x 10 mutation types; ordered pairs of valid DAGs <= 3 '
@@ -1092,18 +1085,39 @@ def run(ctx):
         'operator agents other than the random / recording one (bandits) only choose the type; they are not modelled',
     ]
     specs = gen_specs(ctx)
-    results = run_specs(ctx, specs)
-    by_op = evaluate(ctx, results)
+    picked = 0
+    canaries_done = False
+    pool = None
+    if ctx.tier == 'thorough' and len(specs) > 2000:
+        import concurrent.futures
+        pool = concurrent.futures.ProcessPoolExecutor(max_workers=WORKERS)
+    try:
+        # batches keep the memory bounded (a result carries its Coq term and both snapshots)
+        for k in range(0, len(specs), BATCH):
+            chunk = specs[k:k + BATCH]
+            if pool is not None:
+                results = list(pool.map(run_case_safe, chunk, chunksize=100))
+            else:
+                results = [run_case_safe(s) for s in chunk]
+            by_op = evaluate(ctx, results)
+            if not canaries_done and all(any(x['facts']['n_new'] > 0 and not x['facts']['raised'] for x in by_op.get(o, []))
+                                         for o in ('mutation', 'crossover')):
+                plant_canaries(ctx, by_op)
+                canaries_done = True
+            for opname in ('mutation', 'crossover'):
+                for x in by_op.get(opname, []):
+                    if x['facts']['n_new'] > 0 and x['facts']['stream'] in ('relatives', 'exhaustive') and picked < 4:
+                        ctx.sample({'spec': x['spec'], 'observed': x['detail'], 'facts': x['facts']})
+                        picked += 1
+                        break
+            del results, by_op
+    finally:
+        if pool is not None:
+            pool.shutdown()
+    if not canaries_done:
+        ctx.canaries += 1          # no case offered a place for the canaries: fail closed
     ctx.set_exhaustive('mutation', False)
     ctx.set_exhaustive('crossover', False)
-    plant_canaries(ctx, by_op)
-    picked = 0
-    for opname in ('mutation', 'crossover'):
-        for x in by_op.get(opname, []):
-            if x['facts']['n_new'] > 0 and x['facts']['stream'] in ('relatives', 'exhaustive') and picked < 4:
-                ctx.sample({'spec': x['spec'], 'observed': x['detail'], 'facts': x['facts']})
-                picked += 1
-                break
 
 
 def plant_canaries(ctx, by_op):
